@@ -13,11 +13,11 @@ pb = lib.pb
 D, A, V = pb.Distance, pb.Angular, pb.Velocity
 
 ID = "C10"
-RULE = ("(a) histories from a RuleBasedStateMachine over pools of <= 4 shots and <= 3 calculators: new shot / calculator, zero, "
+RULE = ("(a) histories from a RuleBasedStateMachine over pools of <= 4 shots (incl. a class at the edges of the atmosphere model) and <= 3 calculators: new shot / calculator, zero, "
         "fire (plain/extra/time step), danger space, elevation query, unreachable fire (raises), construction of unrelated "
         "objects sharing tables/points, repeat, and in-place edits of pooled objects (BC, drag-table entry, wind, humidity, "
         "muzzle velocity, look angle) with the model updated accordingly; after every rule: clean-room differential (fresh "
-        "calculator + shot rebuilt from the model), deep snapshot of every pooled argument vs the model, stability of every "
+        "calculator + shot rebuilt from the model; and the same in a process forked before the history's first operation), deep snapshot of every pooled argument vs the model, stability of every "
         "earlier result; (b) 2..4 zero+fire jobs under a harness-owned line-granularity scheduler driven by a generated "
         "schedule; (c) the same jobs in free-running threads with a 1 us switch interval; non-trivial = (a) a history with >= 2 "
         "operations on one calculator for different shots or an operation after a raising one, (b) >= 20 switches between "
@@ -492,9 +492,9 @@ def parts(tier):
 
 
 MANIFEST = {
-    "technique": "Hypothesis rule-based state machine with clean-room differential / argument snapshots / result stability after every rule; generated schedules executed by a harness-owned line-granularity thread scheduler; free-running thread stress",
+    "technique": "Hypothesis rule-based state machine with clean-room differential (fresh objects in-process, and the same operation in a process forked before the history began) / argument snapshots / result stability after every rule; generated schedules executed by a harness-owned line-granularity thread scheduler; free-running thread stress",
     "text": "After every operation of a generated history the outcome equals the same operation on a fresh calculator with a shot rebuilt from the model (bit-identical rows, angles, exception payloads), every pooled argument equals its model "
-            "(only zeroing changes the stored zero, only on success), shipped tables and earlier results are unchanged; zero+fire jobs on distinct calculators give sequential results under generated interleavings and in free-running threads. "
+            "(only zeroing changes the stored zero, only on success), shipped tables and earlier results are unchanged, and the same operation run in a process forked before the history began gives the same bits (nothing left behind in process-global state); zero+fire jobs on distinct calculators give sequential results under generated interleavings and in free-running threads. "
             "Exploration level over histories and schedules.",
     "note": "schedules explored at line granularity; free-thread failures would not replay deterministically",
 }
